@@ -1137,7 +1137,36 @@ def fam_fixed(case):
                   lambda lag_mode: pp.cross_correlation(
                       tau_max=tau_max, lag_mode=lag_mode), False)
     _time_surrogates(acc, data)
+    _surrogates_leave_data(acc, data)
     return acc.result()
+
+
+def _surrogates_leave_data(acc, data):
+    """Drawing a (shuffled / time) surrogate must not change what the object
+    estimates afterwards - for float64 and float32 input."""
+    from pyunicorn.funcnet.coupling_analysis_pure_python import \
+        CouplingAnalysisPurePython
+    T, N = data.shape
+    for dt in ("float64", "float32"):
+        pp = CouplingAnalysisPurePython(np.array(data, dtype=dt),
+                                        silence_level=3)
+        before = _call(pp.cross_correlation, tau_max=1, lag_mode="all")
+        for sname, kw in (("shuffled_surrogate_for_cc", dict(tau_max=1)),
+                          ("time_surrogate_for_cc",
+                           dict(sample_range=T - 2, tau_max=1)),
+                          ("shuffled_surrogate_for_mi",
+                           dict(bins=2, tau_max=1))):
+            np.random.seed(7)
+            _call(getattr(pp, sname), **kw)
+            after = _call(pp.cross_correlation, tau_max=1, lag_mode="all")
+            acc.ev += 2
+            if before[0] != after[0] or (before[0] == "ok" and not
+                                         _same_nested(after[1], before[1])):
+                acc.v("CouplingAnalysisPurePython.cross_correlation:changed-"
+                      "by:%s:%s" % (sname, dt), "%s input: the estimate "
+                      "after drawing a surrogate differs from the one before"
+                      % dt, after[1], before[1])
+                break
 
 
 def _time_surrogates(acc, data):
